@@ -4628,6 +4628,8 @@ impl<'a> Parser<'a> {
     }
 
     fn advance(&mut self) {
+        #[cfg(feature = "tsrun_verif")]
+        crate::verif::count_advance();
         self.previous = mem::replace(&mut self.current, self.lexer.next_token());
     }
 
